@@ -222,6 +222,70 @@ var collectionTypes = []string{"Collection", "OrderedCollection", "CollectionPag
 
 func maybe(t *rapid.T, label string, p int) bool { return rapid.IntRange(0, 99).Draw(t, label) < p }
 
+// putNL stores a natural-language property: usually under its plain key, sometimes only as an ActivityStreams
+// language map (contentMap, nameMap, summaryMap), sometimes as both. The pinned tree ignores the maps; a tree that
+// starts reading them must treat them like any other fetched string.
+func putNL(t *rapid.T, m map[string]any, key string, value string, s StrSrc) {
+	switch rapid.IntRange(0, 9).Draw(t, "nlshape") {
+	case 0:
+		m[key+"Map"] = map[string]any{rapid.SampledFrom([]string{"en", "de", "und", "zh-Hans"}).Draw(t, "lang"): value}
+	case 1:
+		m[key+"Map"] = map[string]any{"aa": value, "en": s(t, "otherlang")}
+	case 2:
+		m[key] = value
+		m[key+"Map"] = map[string]any{"en": s(t, "maptoo")}
+	default:
+		m[key] = value
+	}
+}
+
+// addExtras adds properties of the ActivityStreams / ActivityPub / Mastodon vocabularies that the pinned tree never
+// reads, filled from the same string source: whatever a later tree starts to show is then covered as well.
+func addExtras(t *rapid.T, s StrSrc, m map[string]any) {
+	if !maybe(t, "extras", 35) {
+		return
+	}
+	n := rapid.IntRange(1, 4).Draw(t, "nextras")
+	for i := 0; i < n; i++ {
+		switch rapid.IntRange(0, 13).Draw(t, "extra") {
+		case 0:
+			m["tag"] = []any{map[string]any{"type": rapid.SampledFrom([]string{"Mention", "Hashtag", "Emoji"}).Draw(t, "tagtype"), "name": s(t, "tagname"), "href": "https://x.test/" + s(t, "taghref")}}
+		case 1:
+			m["summary"] = s(t, "cw")
+			m["sensitive"] = true
+		case 2:
+			m["source"] = map[string]any{"content": s(t, "source"), "mediaType": "text/markdown"}
+		case 3:
+			m["location"] = map[string]any{"type": "Place", "name": s(t, "place")}
+		case 4:
+			m["generator"] = map[string]any{"type": "Application", "name": s(t, "generator")}
+		case 5:
+			m["preview"] = map[string]any{"type": "Note", "name": s(t, "previewname"), "content": s(t, "preview")}
+		case 6:
+			m["context"] = "https://x.test/" + s(t, "context")
+			m["conversation"] = s(t, "conversation")
+		case 7:
+			m["to"] = []any{"https://www.w3.org/ns/activitystreams#Public", s(t, "to")}
+			m["cc"] = s(t, "cc")
+		case 8:
+			m["alsoKnownAs"] = []any{s(t, "aka")}
+			m["movedTo"] = s(t, "moved")
+		case 9:
+			m["duration"] = s(t, "duration")
+			m["startTime"] = s(t, "start")
+		case 10:
+			m["@context"] = []any{"https://www.w3.org/ns/activitystreams", map[string]any{s(t, "ctxkey"): s(t, "ctxval")}}
+		case 11:
+			m["endpoints"] = map[string]any{"sharedInbox": s(t, "inbox")}
+			m["featured"] = s(t, "featured")
+		case 12:
+			m["attachment"] = []any{map[string]any{"type": "PropertyValue", "name": s(t, "pvname"), "value": s(t, "pvvalue")}}
+		default:
+			m[s(t, "oddkey")] = s(t, "oddvalue")
+		}
+	}
+}
+
 func GenLinkObj(t *rapid.T, s StrSrc) map[string]any {
 	kind := rapid.SampledFrom([]string{"Link", "Image", "Video", "Audio", "Document"}).Draw(t, "linktype")
 	m := map[string]any{"type": kind}
@@ -233,7 +297,7 @@ func GenLinkObj(t *rapid.T, s StrSrc) map[string]any {
 		m[urlKey] = "https://x.test/" + s(t, "linkpath")
 	}
 	if maybe(t, "linkname", 60) {
-		m["name"] = s(t, "linkname")
+		putNL(t, m, "name", s(t, "linkname"), s)
 	}
 	if maybe(t, "linkmt", 60) {
 		m["mediaType"] = rapid.SampledFrom([]string{"image/png", "video/mp4", "audio/ogg", "text/html", "application/x-mpegURL"}).Draw(t, "lmt")
@@ -248,13 +312,15 @@ func GenLinkObj(t *rapid.T, s StrSrc) map[string]any {
 func GenActorObj(t *rapid.T, s StrSrc) map[string]any {
 	m := map[string]any{"type": rapid.SampledFrom(actorTypes).Draw(t, "actortype")}
 	if maybe(t, "aname", 80) {
-		m["name"] = s(t, "actorname")
+		putNL(t, m, "name", s(t, "actorname"), s)
 	}
 	if maybe(t, "ahandle", 70) {
 		m["preferredUsername"] = s(t, "handle")
 	}
 	if maybe(t, "abio", 60) {
-		m["summary"], m["mediaType"] = GenHostileBody(t, s)
+		var bio string
+		bio, m["mediaType"] = GenHostileBody(t, s)
+		putNL(t, m, "summary", bio, s)
 		if m["mediaType"] == nil {
 			delete(m, "mediaType")
 		}
@@ -268,6 +334,7 @@ func GenActorObj(t *rapid.T, s StrSrc) map[string]any {
 	if maybe(t, "aimage", 30) {
 		m["image"] = []any{GenLinkObj(t, s), GenLinkObj(t, s)}
 	}
+	addExtras(t, s, m)
 	return m
 }
 
@@ -302,11 +369,11 @@ func GenCollectionObj(t *rapid.T, s StrSrc, depth int, item func() any) map[stri
 func GenPostObj(t *rapid.T, s StrSrc, depth int) map[string]any {
 	m := map[string]any{"type": rapid.SampledFrom(postTypes).Draw(t, "posttype")}
 	if maybe(t, "ptitle", 40) {
-		m["name"] = s(t, "title")
+		putNL(t, m, "name", s(t, "title"), s)
 	}
 	if maybe(t, "pbody", 85) {
 		c, mt := GenHostileBody(t, s)
-		m["content"] = c
+		putNL(t, m, "content", c, s)
 		if mt != nil {
 			m["mediaType"] = mt
 		}
@@ -327,6 +394,7 @@ func GenPostObj(t *rapid.T, s StrSrc, depth int) map[string]any {
 			m["url"] = []any{GenLinkObj(t, s), "https://x.test/v", GenLinkObj(t, s)}
 		}
 	}
+	addExtras(t, s, m)
 	if maybe(t, "pattach", 50) {
 		n := rapid.IntRange(0, 3).Draw(t, "nattach")
 		list := []any{}
@@ -370,6 +438,7 @@ func GenActivityObj(t *rapid.T, s StrSrc, depth int) map[string]any {
 	if maybe(t, "actpub", 50) {
 		m["published"] = "2022-03-04T05:06:07Z"
 	}
+	addExtras(t, s, m)
 	return m
 }
 
